@@ -288,6 +288,30 @@ impl<R: RtT> Machine for M18<R> {
                 reply_ok();
                 None
             }
+            "carry" => {
+                // the other frames a program can make (spec constant FrameKinds)
+                let f = step["f"].as_u64().unwrap();
+                let fr = match step["kind"].as_str().unwrap_or("") {
+                    // the span context read and pushed again: the pushed span id is the active one
+                    "spanctxt" => TFrame::Plain(if (salt + f) % 2 == 0 {
+                        SpanCtxt::current(self.rt.get().ctxt()).push(self.rt.get().ctxt())
+                    } else {
+                        Frame::push(self.rt.get().ctxt(), SpanCtxt::current(self.rt.get().ctxt()))
+                    }),
+                    // a tracestate riding along with whatever traceparent is current
+                    "state" => TFrame::Hdr(match (salt + f) % 3 {
+                        0 => emit_traceparent::Tracestate::new_raw("vh=2").push(),
+                        1 => emit_traceparent::Tracestate::new_owned_raw(format!("vh={}", salt)).push(),
+                        _ => emit_traceparent::Tracestate::new_str_raw(emit::Str::new("vh=3,other=1")).push(),
+                    }),
+                    // shows only its own properties: TraceparentCtxt::open_root
+                    "root" => TFrame::Plain(Frame::root(self.rt.get().ctxt(), [("user", (salt + f) as i64)])),
+                    other => tool_error(&format!("unknown frame kind {other}")),
+                };
+                self.frames.lock().unwrap().insert(f, fr);
+                reply_ok();
+                None
+            }
             "enter" => {
                 let f = step["f"].as_u64().unwrap();
                 match self.take_frame(f) {
@@ -402,7 +426,9 @@ impl<R: RtT> Machine for M18<R> {
 
     fn observe(&'static self) -> Value {
         let tp = Traceparent::current();
-        let (tp2, _state) = emit_traceparent::current();
+        let (tp2, state) = emit_traceparent::current();
+        // the tracestate rides along; the statement says nothing about its value (not compared)
+        let state_alone = emit_traceparent::Tracestate::current();
         let text = tp.to_string();
         let back = Traceparent::try_from_str(&text).ok();
         let c = SpanCtxt::current(self.rt.get().ctxt());
@@ -412,6 +438,7 @@ impl<R: RtT> Machine for M18<R> {
             "sampled": tp.trace_flags().is_sampled(),
             "text": text,
             "roundtrip": back == Some(tp) && tp2 == tp,
+            "state": [state.get(), state_alone.to_string()],
             "ctxt": [c.trace_id().map(|t| format!("t:{t}")), c.span_id().map(|s| format!("s:{s}"))],
         })
     }
@@ -597,6 +624,22 @@ fn build(form: &str, in_sampled: bool) -> Box<dyn CaseRunner> {
         let rt: &'static emit::runtime::AmbientRuntime<'static> = slot.get();
         return runner("ambient", rt, rows, sampler);
     }
+    if form == "setup" {
+        // the entry point without a sampler: emit_traceparent::setup(), in a fresh slot
+        let slot: &'static emit::runtime::AmbientSlot = leak(emit::runtime::AmbientSlot::new());
+        let _ = emit_traceparent::setup()
+            .and_emit_when(ins)
+            .emit_to(rows.clone())
+            .with_clock(clock())
+            .with_rng(rng())
+            .init_slot(slot);
+        let rt: &'static emit::runtime::AmbientRuntime<'static> = slot.get();
+        return runner("setup", rt, rows, sampler);
+    }
+    if form == "nosampler" {
+        let filter = TraceparentFilter::new().and_when(ins);
+        return runner("nosampler", leak(Runtime::build(rows.clone(), filter, cx, clock(), rng())), rows, sampler);
+    }
     let filter: Flt = TraceparentFilter::new_with_sampler(f).and_when(ins);
     match form {
         "value" => runner("value", leak(Runtime::build(rows.clone(), filter, cx, clock(), rng())), rows, sampler),
@@ -604,6 +647,8 @@ fn build(form: &str, in_sampled: bool) -> Box<dyn CaseRunner> {
         "option" => runner("option", leak(Runtime::build(rows.clone(), filter, Some(cx), clock(), rng())), rows, sampler),
         "box" => runner("box", leak(Runtime::build(rows.clone(), filter, Box::new(cx), clock(), rng())), rows, sampler),
         "arc" => runner("arc", leak(Runtime::build(rows.clone(), filter, Arc::new(cx), clock(), rng())), rows, sampler),
+        // TraceparentCtxt over a third-party stacking context (trait-default open_push, duplicates visible)
+        "stack" => runner("stack", leak(Runtime::build(rows.clone(), filter, TraceparentCtxt::new(StackCtxt), clock(), rng())), rows, sampler),
         "dyn" => runner(
             "dyn",
             leak(Runtime::build(rows.clone(), filter, Box::new(cx) as Box<dyn emit_core::ctxt::ErasedCtxt + Send + Sync>, clock(), rng())),
